@@ -128,15 +128,27 @@ def check_config(ctx, F, tag):
                 okm = self_path(mo.term_of_local(0)) == ["offset"]
                 oklen = m(Bin("Add", SelfField("data_len"), Const(1)), ml.term_of_local(0))
                 # data_len is the element read at offset, and the owned header element is value.size_in_elements()
-                aggs = [st for bi, si, st in b.stmts() if st["s"] == "assign" and st["rv"]["r"] == "agg" and st["rv"].get("def") == name]
-                okd = len(aggs) == 1
-                if okd:
-                    ops = dict(zip(aggs[0]["rv"]["fields"], aggs[0]["rv"]["ops"]))
+                aggs = [(bi, st) for bi, si, st in b.stmts() if st["s"] == "assign" and st["rv"]["r"] == "agg" and st["rv"].get("def") == name]
+                okd = len(aggs) >= 1
+                header = None
+                from guards import fact_nonzero, fact_zero
+                for bi, st in aggs:
+                    ops = dict(zip(st["rv"]["fields"], st["rv"]["ops"]))
                     dl = strip_casts(b.term_of_operand(ops["data_len"]))
-                    okd = dl[0] == "index" and mapped.is_map_slice(dl[1]) and core(dl[2])[:2] == ("param", 1) and core(b.term_of_operand(ops["offset"]))[:2] == ("param", 1)
+                    is_header = dl[0] == "index" and mapped.is_map_slice(dl[1]) and core(dl[2])[:2] == ("param", 1)
+                    if is_header:
+                        header = dl
+                    okd = okd and core(b.term_of_operand(ops["offset"]))[:2] == ("param", 1) and (is_header or (dl[0] == "const" and dl[1] == 0))
+                # an explicit 0 stands for the header only where the header was found to be 0
+                for bi, st in aggs:
+                    ops = dict(zip(st["rv"]["fields"], st["rv"]["ops"]))
+                    dl = strip_casts(b.term_of_operand(ops["data_len"]))
+                    if dl[0] == "const" and (header is None or not fact_zero(facts_at(b, bi), header)):
+                        okd = False
+                okd = okd and header is not None
                 # the nested view is created exactly when data_len > 0
                 fs = facts_at(b, nested[0][0]) if nested else []
-                okg = any(f[0] == "cmp" and f[1] == "Gt" and m(Const(0), f[3]) for f in fs)
+                okg = any(f[0] == "cmp" and f[1] == "Gt" and m(Const(0), f[3]) for f in fs) or (header is not None and fact_nonzero(fs, header))
                 ok = reads_ok and nest_ok and wr_ok and okm and oklen and okd and okg
                 detail = "reads header elements at offsets %s (k=%d); nested at offset+%d: %s; Option header writes %d element(s); map_len = data_len + 1: %s; data_len = slice[offset]: %s; nested only when data_len > 0: %s" % (
                     consts, k, k, nest_ok, len(scalars), oklen, okd, okg)
